@@ -36,6 +36,7 @@ func (s *clientSide) Read(p []byte) (int, error) {
 	}
 	n := copy(p, s.c.out[s.pos:])
 	s.pos += n
+	s.c.cond.Broadcast()
 	return n, nil
 }
 func (s *clientSide) Write(p []byte) (int, error) {
@@ -168,12 +169,17 @@ func runTLS(cs *caseT, preChunks []int, msgs [][]byte) (o *obsT, handshake strin
 				o.steps = append(o.steps, 1+len(plain))
 				pmu.Unlock()
 			}
+			tA := time.Now()
 			conn.setEOF()
 			if !conn.waitFinished(idleTimeout) {
 				o.hang = true
 				conn.Close()
 			}
+			tB := time.Now()
 			<-readerDone
+			if os.Getenv("C11_TIMING") != "" {
+				fmt.Fprintln(os.Stderr, "finish", tB.Sub(tA), "reader", time.Since(tB))
+			}
 		} else {
 			conn.setEOF()
 			conn.waitFinished(idleTimeout)
@@ -236,7 +242,11 @@ func runC11(c *runCfg) error {
 		for _, m := range msgs {
 			tlsin = append(tlsin, m...)
 		}
+		t0 := time.Now()
 		o, hs, rawOK, base := runTLS(cs, preChunks, msgs)
+		if d := time.Since(t0); d > time.Second && os.Getenv("C11_TIMING") != "" {
+			fmt.Fprintln(os.Stderr, "slow", class, d)
+		}
 		cs.hasTLS = true
 		cs.tls = tlsin
 		cs.chunks = nil
@@ -252,9 +262,9 @@ func runC11(c *runCfg) error {
 		return [][]byte{startupMsg("user", "tlsuser", "database", "db"), mQuery([]byte("select 1")), mParse(nil, []byte("select 1"), 0), mBind(nil, nil, nil, nil, nil), mExecute(nil, 0), mSync(), mQuery([]byte("   ")), mTerminate()}
 	}
 	stuffed := cat(startupMsg("user", "mallory"), mQuery([]byte("STUFFED")))
-	n := 12
+	n := 40
 	if c.tier == "thorough" {
-		n = 200
+		n = 2000
 	}
 	for i := 0; i < n; i++ {
 		cfg := simpleCfg(1024)
